@@ -168,7 +168,7 @@ def r1(F, R):
                         else:
                             msgs.append("%s stores %s into %s on the warm-up edge and %s otherwise; push uses %s / %s" % (fn, buf, sorted(w), sorted(s), want[0], want[1]))
                     # a store call follows the snapshot inside the loop
-                    stores = [bb for bb, t in b.calls() if bb in body and (t["callee"].get("name") or "").startswith(("store_zarr_chunk", "queue_write"))]
+                    stores = [bb for bb, t in b.calls() if bb in body and _is_store_call(F, t)]
                     if not stores:
                         okl = False
                         msgs.append("no store call in the loop over %s" % buf)
@@ -279,10 +279,24 @@ def r2(F, R):
         R.floor("C15-R2", 3)
 
 
+def _is_store_call(F, t, depth=0):
+    """A call that writes a chunk: store_zarr_chunk* / queue_write, or a call given a closure / async block that does
+    (`handle.block_on(async move { store_zarr_chunk_async(..).await })` is store_zarr_chunk_sync written in place)."""
+    c = t["callee"]
+    if (c.get("name") or "").startswith(("store_zarr_chunk", "queue_write")):
+        return True
+    if depth < 2:
+        for cp in c.get("closures") or []:
+            cb = F.bodies.get(cp)
+            if cb is not None and any(_is_store_call(F, t2, depth + 1) for _b2, t2 in cb.calls()):
+                return True
+    return False
+
+
 def r3(F, R):
     R.rule("C15-R3", "the controller's Flush arm calls ChainProcess::flush for every chain handle, unconditionally, in a loop that dominates the acknowledgement; "
                      "ChainProcess::flush calls ChainStorage::flush while it holds the trace guard")
-    C12.r4(F, R, rid="C15-R3", commands=(("Flush", "ChainProcess::flush"),))
+    C12.r4(F, R, rid="C15-R3", commands=(("Flush", "ChainProcess::flush"),), closure_adaptors=("for_each", "try_for_each"))
     cl = C12.controller_loop(F)
     ca = C12.command_arms(cl) if cl is not None else None
     if ca and "Flush" in ca[0]:
@@ -303,6 +317,23 @@ def r3(F, R):
                       "last partial chunk in memory while flush() reports success")
             else:
                 R.ok("C15-R3", "controller:Flush:unconditional", site, "every chain is flushed, no filter")
+        if not ops:
+            # closure form: chains.iter().try_for_each(|chain| chain.flush())
+            for bb, t in cl.calls():
+                c_ = t["callee"]
+                if bb in reach and c_.get("closures") and strip_generics(c_.get("path", "")).split("::")[-1] in ("for_each", "try_for_each"):
+                    for cp_ in c_["closures"]:
+                        cb_ = F.bodies.get(cp_)
+                        if cb_ is None:
+                            continue
+                        for b2, t2 in cb_.calls():
+                            if path_ends(t2["callee"].get("path", ""), "ChainProcess::flush"):
+                                site = "%s @%s" % (cb_.path, loc(t2["span"]))
+                                cond = [a for (a, _s) in cb_.control_deps_trans(b2) if cb_.blocks[a]["term"]["k"] == "switch"]
+                                if cond:
+                                    R.bad("C15-R3", "controller:Flush:unconditional", site, "chain.flush() is skipped for some chains (conditional inside the closure)")
+                                else:
+                                    R.ok("C15-R3", "controller:Flush:unconditional", site, "every chain is flushed, no filter (closure form)")
     fl = F.inherent_methods("ChainProcess", "flush")
     for b in fl:
         bodies = [b] + K.all_closures_of(F, b.path)
